@@ -908,6 +908,23 @@ void __wrap_syslog(int pri, const char *fmt, ...)
 	ds_put(&logs, "]");
 }
 
+#if defined(__has_feature)
+#if __has_feature(memory_sanitizer)
+#include <sanitizer/msan_interface.h>
+#define SIMK_MSAN 1
+#endif
+#endif
+
+char *__real_crypt(const char *key, const char *salt);
+char *__wrap_crypt(const char *key, const char *salt)
+{
+	char *r = __real_crypt(key, salt);
+#ifdef SIMK_MSAN
+	if (r) __msan_unpoison(r, strlen(r) + 1); /* libcrypt is not instrumented */
+#endif
+	return r;
+}
+
 /* ------------------------------------------------------------------ */
 /* observation taps on cjet-internal seams                             */
 
